@@ -49,17 +49,31 @@ pub fn run(op: &str, case: &Value) -> Result<Value> {
             }
         }
         "eval_dependencies_via_instance" => {
-            // eval_dependencies is private: reach it through Instance::evaluate with an empty objective
-            let mut inst = v1::Instance::default();
-            inst.sense = 1;
-            for (k, v) in case["deps"].as_object().ok_or_else(|| anyhow!("deps"))? {
-                inst.decision_variable_dependency.insert(k.parse()?, msg(v)?);
-            }
+            // eval_dependencies is private: reach it through Instance::evaluate with an empty objective.
+            // The outcome may depend on the HashMap iteration order, so the map is rebuilt (fresh RandomState) many
+            // times and every distinct outcome is reported.
             let st: v1::State = msg(&case["state"])?;
-            match inst.evaluate(&st) {
-                Ok((sol, used)) => json!({"ok": {"solution": enc(&sol), "used": ids(used)}}),
-                Err(e) => errv(e),
+            let mut variants: Vec<Value> = vec![];
+            let tries = case["tries"].as_u64().unwrap_or(300);
+            for _ in 0..tries {
+                let mut inst = v1::Instance::default();
+                inst.sense = 1;
+                for (k, v) in case["deps"].as_object().ok_or_else(|| anyhow!("deps"))? {
+                    inst.decision_variable_dependency.insert(k.parse()?, msg(v)?);
+                }
+                let r = match inst.evaluate(&st) {
+                    Ok((sol, _)) => {
+                        let mut ents: Vec<(u64, f64)> = sol.state.unwrap_or_default().entries.into_iter().collect();
+                        ents.sort_by(|a, b| a.0.cmp(&b.0));
+                        json!({"ok": ents.iter().map(|(k, v)| json!([k, fj(*v)])).collect::<Vec<_>>()})
+                    }
+                    Err(_) => json!({"err": true}),
+                };
+                if !variants.contains(&r) {
+                    variants.push(r);
+                }
             }
+            json!({"variants": variants})
         }
         "substitute_then_eval" => {
             let mut inst: v1::Instance = msg(&case["instance"])?;
